@@ -10,12 +10,22 @@
 (* - independently of addRef / removeRef and of the refcount cache.        *)
 (*                                                                         *)
 (* Events                                                                  *)
-(*   init    layer ("module" | "chain"), mode ("latest" | "gc" | "gclatest")*)
-(*   block   h, committed, failed, root, ch (module layer: the batch)      *)
+(*   init    layer ("module" = stateroot.Module | "trie" = mpt.Trie with   *)
+(*           single Put/Delete | "chain" = core.Blockchain),               *)
+(*           mode ("latest" | "gc" | "gclatest")                           *)
+(*   block   h, committed (FALSE = computed but never committed), failed,   *)
+(*           root, ch (module / trie layer: the batch)                     *)
 (*   gc      g                                                             *)
-(*   persist | reinit | close     (no logical change expected)             *)
+(*   persist | reinit              (no logical change expected)            *)
 (* every event but init: put, del (table delta), reads (answers of the     *)
-(* public read API for the heights probed after the step).                 *)
+(* public read API for the heights probed after the step: module / trie    *)
+(* layer - Get of every key of the universe and Find of everything, judged *)
+(* against the content folded from the batches; chain layer - a digest of  *)
+(* Find of everything, judged against the digest read when the height was  *)
+(* the latest).                                                            *)
+(* The step is written with primed variables on purpose: TLC re-evaluates  *)
+(* LET definitions at every use inside an action, a primed variable is     *)
+(* evaluated once.                                                         *)
 (***************************************************************************)
 EXTENDS TraceIO, FiniteSets, FiniteSetsExt, SequencesExt
 
@@ -69,7 +79,7 @@ ChainRead(r, d, kept) ==
          ELSE NameIf(~r.ok \/ r.digest = d[r.h], "DroppedReadWrongData")
 
 Reads(e, c2, d2, kept) ==
-    UNION { IF layer = "module"
+    UNION { IF layer # "chain"
               THEN (IF e.reads[i].h \in DOMAIN c2 THEN ModuleRead(e.reads[i], c2[e.reads[i].h], e.reads[i].h \in kept) ELSE {})
               ELSE ChainRead(e.reads[i], d2, e.reads[i].h \in kept)
             : i \in DOMAIN e.reads }
@@ -99,7 +109,7 @@ Step ==
          /\ tbl'    = Apply(tbl, e.put, e.del)
          /\ height' = IF commit THEN e.h ELSE height
          /\ roots'  = IF commit THEN (e.h :> e.root) @@ roots ELSE roots
-         /\ cont'   = IF commit /\ layer = "module" THEN (e.h :> ApplyBatch(cont[height], e.ch)) @@ cont ELSE cont
+         /\ cont'   = IF commit /\ layer # "chain" THEN (e.h :> ApplyBatch(cont[height], e.ch)) @@ cont ELSE cont
          /\ G'      = IF e.event = "gc" /\ e.g > G THEN e.g ELSE G
          /\ occ'    = M!Occ(tbl', roots'[height'])
          /\ LET died == IF commit THEN DOMAIN occ \ DOMAIN occ' ELSE {}
